@@ -363,10 +363,19 @@ impl Check for C12 {
             Part { name: "tokens", kind: PartKind::Enum { units: 26 * 26 } },
             Part { name: "mutants", kind: PartKind::Random { cases: tier.pick(400_000, 4_000_000), main: 160, ops: 2, oplen: 120, sched: 0 } },
             Part { name: "targets", kind: PartKind::Random { cases: tier.pick(100_000, 1_000_000), main: 10, ops: 0, oplen: 0, sched: 0 } },
+            Part { name: "depfiles", kind: PartKind::Enum { units: 125 } },
             Part { name: "bb-cli", kind: PartKind::Random { cases: tier.pick(96, 2000), main: 160, ops: 2, oplen: 120, sched: 0 } },
         ]
     }
-    fn run_unit(&mut self, _part: &str, u: u64, env: &mut Env) -> CaseOut {
+    fn run_unit(&mut self, part: &str, u: u64, env: &mut Env) -> CaseOut {
+        if part == "depfiles" {
+            // C12 also speaks of depfiles: the exhaustive totality enumeration of C15, reported under C12
+            let mut out = crate::tot::c15::C15.enum_unit(u, env.tier.pick(8, 10), env);
+            for v in out.viols.iter_mut() {
+                v.prop = "C12".into();
+            }
+            return out;
+        }
         self.enum_unit(u, env.tier.pick(4, 5), env)
     }
     fn run_random(&mut self, part: &str, case: &Case, env: &mut Env) -> CaseOut {
@@ -379,6 +388,17 @@ impl Check for C12 {
     fn run_replay(&mut self, _part: &str, replay: &Value, env: &mut Env) -> CaseOut {
         prepare_dir(env);
         let raw = if replay["raw_bytes"].is_array() { &replay["raw_bytes"] } else { &replay["manifest_bytes"] };
+        if let Some(d) = replay["depfile"].as_str() {
+            let mut out = CaseOut { evals: 1, ..Default::default() };
+            if !survives(|| {
+                let _ = crate::tot::c15::parse(d.as_bytes());
+            }) {
+                out.viols.push(Viol::new("C12", "process-death", format!("parsing depfile {:?} kills the process", d)));
+            } else if let Err((k, m)) = crate::tot::c15::totality_one(d.as_bytes()) {
+                out.viols.push(Viol::new("C12", k, m));
+            }
+            return out;
+        }
         let bytes: Vec<u8> = match raw {
             Value::Array(a) => a.iter().map(|x| x.as_u64().unwrap_or(0) as u8).collect(),
             Value::String(s) => s.as_bytes().to_vec(),
